@@ -28,7 +28,9 @@ func (o *OracleC10) AfterCall(n *Node, st *Step) {
 		return
 	}
 	validator := s.sc.IndexAt(d.BlockIndex, n.ident) >= 0
-	if !validator || n.flagWO || d.BlockSent() {
+	// "has not yet accepted a block" is the harness's own record (the application's
+	// ProcessBlock returned success since the last Start/Reset), not the library's flag
+	if !validator || n.flagWO || n.accepted {
 		return
 	}
 	for i := range st.Outs {
